@@ -80,7 +80,8 @@ class C10(Prop):
         "gumbel_cdf_monotone_0_to_1", "gumbel_textbook_laws", "gumbel_code_eq_textbook", "gumbel_code_surv_switches",
         "gumbel_code_invsurv", "wei_textbook_laws", "wei_code_eq_textbook", "wei_outside_support",
         "gev_textbook_laws", "gev_code_eq_textbook", "gev_code_logsurv", "gev_gumbel_branch_partial", "gev_outside_support",
-        "gam_laws_partial", "sxp_laws_partial", "normal_laws_partial", "hxp_cdf_add_surv_partial", "gam_sxp_outside_support", "pdf_integrates_to_cdf_differences_partial")]
+        "gam_laws_partial", "sxp_laws_partial", "normal_laws_partial", "hxp_cdf_add_surv_partial", "gam_sxp_outside_support", "pdf_integrates_to_cdf_differences_partial",
+        "gev_gumbel_branch_distance", "bisection_inverses_bracket", "mixture_log_versions_partial")]
     claimed = True
     technique = ("Lean 4 proof about the C functions translated from the working tree on every run (clang-14 AST -> Lean, polymorphic "
                  "over a numeric class): real-analysis theorems at the R instance, the same definitions executed at Float bit-for-bit "
@@ -123,7 +124,9 @@ class C10(Prop):
     # and anything larger is far above these bounds (and is also judged by the closed-form monitors).
     H_TOL = {"sxp": (1e-5, 1e-12), "gam": (1e-5, 1e-12), "normal": (1e-11, 0.0), "hxp": (1e-11, 1e-15), "mixgev": (1e-11, 1e-15),
              "esl_stats_LogGamma": (1e-9, 1e-8), "esl_stats_IncGammaP": (1e-5, 1e-12), "esl_stats_IncGammaQ": (1e-5, 1e-12),
-             "esl_stats_erfc": (1e-11, 0.0)}
+             "esl_stats_erfc": (1e-11, 0.0),
+             # bracketing + bisection inverses (hand model Dist/Bisect.lean): stop at relative width 1e-6
+             "esl_sxp_invcdf": (1e-5, 1e-9), "esl_gam_invcdf": (1e-5, 1e-9), "mixinv": (1e-5, 1e-9)}
 
     @staticmethod
     def close(a, b, rel, ab):
@@ -146,11 +149,11 @@ class C10(Prop):
             kind, kv, _ = parse_op(case["ops"][i]) if i < len(case["ops"]) else ("", {}, [])
             fns = kv.get("fn", "").split(",")
             if b == "unmodelled":
-                if (kind == "mix" and kv.get("fn") == "invcdf") or (kind in ("f", "f2") and not any(f in must for f in fns)):
+                if kind in ("f", "f2") and not any(f in must for f in fns) and fns[0] not in self.H_TOL:
                     continue
             tol = None
             if kind == "mix":
-                tol = self.H_TOL.get(kv.get("fam"))
+                tol = self.H_TOL["mixinv"] if kv.get("fn") == "invcdf" else self.H_TOL.get(kv.get("fam"))
             elif kind in ("f", "f2"):
                 tol = self.H_TOL.get(fns[0]) or self.H_TOL.get(R.split_fn(fns[0])[0])
             va, vb = parse_out(a), parse_out(b)
@@ -642,7 +645,7 @@ class C10(Prop):
                 "hand_modelled_functions": ["esl_stats_LogGamma", "esl_stats_IncompleteGamma", "esl_stats_erfc (coefficients dumped from source)",
                                             "esl_vec_DMax", "esl_vec_DLogSum", "esl_hxp_{pdf,logpdf,cdf,logcdf,surv,logsurv,Sample}",
                                             "esl_mixgev_{pdf,logpdf,cdf,logcdf,surv,logsurv,Sample}", "esl_rnd_DChoose"],
-                "monitor_only_functions": ["esl_sxp_invcdf", "esl_gam_invcdf", "esl_hxp_invcdf", "esl_mixgev_invcdf (bracketing + bisection loops)"],
+                "hand_modelled_inverses": ["esl_sxp_invcdf", "esl_gam_invcdf", "esl_hxp_invcdf", "esl_mixgev_invcdf (Dist/Bisect.lean: bracketing + bisection loops with fuel)"],
                 "not_covered": ["esl_sxp_Sample, esl_gam_Sample, esl_lognormal_Sample (esl_rnd_Gamma / esl_rnd_Gaussian not modelled)",
                                 "generic_* wrappers (one-line forwards)", "esl_stats_Psi / Trigamma (used by the fitting code, C11)"],
                 "literals_from_source_text": getattr(self, "tinfo", {}).get("literals", []),
